@@ -43,6 +43,7 @@ DstInputs(c, xs, xd, cats) ==
   \cup (IF "cancel" \in cats THEN {[k |-> "cancel", a |-> [t |-> "cancel", right |-> TRUE], w |-> FALSE]} ELSE {})
   \cup (IF "cancelwrong" \in cats THEN {[k |-> "cancel", a |-> [t |-> "cancel", right |-> FALSE], w |-> FALSE]} ELSE {})
   \cup (IF "reset" \in cats THEN {[k |-> "reset", a |-> [t |-> "reset"], w |-> FALSE]} ELSE {})
+  \cup (IF "lazy" \in cats THEN {[k |-> "lazy", a |-> None, w |-> FALSE]} ELSE {})
   \cup (IF "alien" \in cats THEN
           { Fsm(DAck(h, "EOF")), Fsm([h |-> h, t |-> "NAK", sos |-> 0, eos |-> 1, reqs |-> << <<0, 1>> >>]),
             Fsm([h |-> h, t |-> "FIN", cond |-> "NO_ERROR", deliv |-> "DATA_COMPLETE", fstat |-> "FILE_RETAINED", floc |-> NoFlocM]),
@@ -80,6 +81,7 @@ SrcInputs(c, xs, xd, cats) ==
   \cup (IF "cancel" \in cats THEN {[k |-> "cancel", a |-> [t |-> "cancel", right |-> TRUE], w |-> FALSE]} ELSE {})
   \cup (IF "cancelwrong" \in cats THEN {[k |-> "cancel", a |-> [t |-> "cancel", right |-> FALSE], w |-> FALSE]} ELSE {})
   \cup (IF "reset" \in cats THEN {[k |-> "reset", a |-> [t |-> "reset"], w |-> FALSE]} ELSE {})
+  \cup (IF "lazy" \in cats THEN {[k |-> "lazy", a |-> None, w |-> FALSE]} ELSE {})
   \cup (IF "alien" \in cats THEN
           { Fsm([h |-> h, t |-> "ACK", acked |-> "FIN", cond |-> "NO_ERROR", tstat |-> "ACTIVE"]), Fsm([h |-> h, t |-> "KA", progress |-> 1]),
             Fsm([h |-> h, t |-> "PROMPT", resp |-> 0]), Fsm(DFd(c, h, 0, 1)), Fsm(DEof(c, h, "NO_ERROR", n, TRUE)),
